@@ -5,7 +5,7 @@ from oracle_util import *  # noqa
 from tokutil import *  # noqa
 
 ID = "C01"
-LEAN_MODULE = ["SCoda.Props.C01", "SCoda.Props.C01b", "SCoda.Props.C01Glue", "SCoda.Props.C02", "SCoda.Props.C01c", "SCoda.Props.TokTie", "SCoda.Props.C01n"]
+LEAN_MODULE = ["SCoda.Props.C01", "SCoda.Props.C01b", "SCoda.Props.C01Glue", "SCoda.Props.C02", "SCoda.Props.C01c", "SCoda.Props.TokTie", "SCoda.Props.C01n", "SCoda.Props.UtilTie"]
 LEVEL = "proof"
 CLAUSES = [
     ("every token tokenise emits is in the vocabulary, and decode(encode(tokens)) = tokens",
@@ -40,6 +40,8 @@ CLAUSES = [
      ["SCoda.TokTie.tokenise_eq", "SCoda.TokTie.tokenise_eq'", "SCoda.TokTie.tokenise_fresh", "SCoda.TokTie.tokenise_fresh'", "SCoda.TokTie.tokenise_none", "SCoda.TokTie.stOfDict_nil", "SCoda.TokTie.tokenise_wrong_length", "SCoda.TokTie.tokenise_zero_denominator", "SCoda.TokTie.tokenise_eq_statement_false", "SCoda.TokTie.detokenise_eq", "SCoda.TokTie.detokenise_step", "SCoda.TokTie.encode_eq", "SCoda.TokTie.decode_eq", "SCoda.TokTie.tokInit_eq'"]),
     ("duration on the exact complement of D15's failing class (audit round 2 A4a): no detokenised sequence ever lasts longer than the end of the last bar; outside HasTail' (= HasTail and the latest note end is not the end of the last bar) the longest sequence lasts exactly that long (one-track piece: the sequence), and sequence i does whenever a note of track i ends there; 'every sequence' and 'end of the piece on a bar end' are refuted (two tracks [0,96)/[0,24): library durations 96/24; note [0,48)+rest+key signature at 96: library duration 48)",
      ["SCoda.C01n.duration_no_tail'", "SCoda.C01n.duration_no_tail_single", "SCoda.C01n.duration_seq", "SCoda.C01n.duration_le", "SCoda.C01n.duration_each_statement_false", "SCoda.C01n.duration_pieceEnd_statement_false"]),
+    ("TIE BY TRANSLATION, numeric helpers: scoda/misc/util.py is re-translated statement by statement on every run (Gen/UtilFns.lean, tools/py2lean_util.py: one operator of the PyNum int/float tower per Python operator — floats as exact rationals, no rounding modelled —, range/enumerate/zip/comprehensions, while with proved fuel, numpy.digitize(right=True) modelled explicitly) and tied to the hand models and to the dumped tables: bin_velocity = the model's binIndex for ascending bins (refuted for descending / non-monotone bin lists, where the code answers through numpy.digitize or raises ValueError: replayed), get_velocity_bins for every n ≠ 0 and the default bins evaluated from the translated source = the dumped table; velocity_from_bin, digitise_velocity, minmax against independent arithmetic specifications",
+     ["SCoda.UtilTie.binVelocity_sorted", "SCoda.UtilTie.binVelocity_default", "SCoda.UtilTie.binVelocity_eq_statement_false", "SCoda.UtilTie.getVelocityBins_int", "SCoda.UtilTie.defaultBins_eq", "SCoda.UtilTie.binSize_eq", "SCoda.UtilTie.velocityFromBin_spec", "SCoda.UtilTie.digitiseVelocity_spec", "SCoda.UtilTie.minmax_spec", "SCoda.UtilTie.minmax_spec_statement_false", "SCoda.UtilTie.default_tables_from_source"]),
 ]
 RULE = ("valid multi-track pieces (1-3 tracks, 1-5 bars, <=3 notes per bar and track, signature changes on bar lines, rests "
         "crossing bar lines, simultaneous notes across tracks) x configurations (all 16 flag combinations sampled, velocity "
